@@ -22,7 +22,7 @@ struct MS { name: String, about: Option<String>, long_about: Option<String>, hid
 #[derive(Clone, Debug)]
 struct MC { name: String, display_name: Option<String>, bin_name: Option<String>, about: Option<String>, long_about: Option<String>, version: Option<String>,
     long_version: Option<String>, author: Option<String>, after: Option<String>, after_long: Option<String>, sub_heading: Option<String>,
-    sub_value_name: Option<String>, sub_required: bool, no_help_flag: bool, args: Vec<MA>, subs: Vec<MS> }
+    sub_value_name: Option<String>, sub_required: bool, no_help_flag: bool, args: Vec<MA>, subs: Vec<MS>, ov: [Option<String>; 5] }
 
 fn gen_mc(rng: &mut Rng) -> MC {
     let mut shorts: Vec<char> = "abcdefgijkmnopqrstuwxyz.'".chars().collect();
@@ -73,6 +73,7 @@ fn gen_mc(rng: &mut Rng) -> MC {
         sub_heading: if rng.chance(1, 4) { Some(rng.pick(&["Subs", ".Subs", "x\n.so sub", "it's", "two words"]).to_string()) } else { None },
         sub_value_name: if rng.chance(1, 4) { Some(rng.pick(&MILD[..]).to_string()) } else { None },
         sub_required: rng.chance(1, 4), no_help_flag: rng.chance(1, 6), args, subs,
+        ov: [opt_adv(rng, 1, 6), if rng.chance(1, 6) { Some(rng.pick(&["1", "8", "1 x", "1\n.so s", ""]).to_string()) } else { None }, opt_adv(rng, 1, 6), opt_adv(rng, 1, 6), opt_adv(rng, 1, 6)],
     }
 }
 
@@ -127,7 +128,7 @@ fn build(c: &MC, innocuous: bool) -> Command {
 fn oh(s: Option<String>) -> String { match s { None => "~".into(), Some(x) => hex(x.as_bytes()) } }
 
 /// the model's input, read off the BUILT real command through its public getters
-fn request(built: &Command) -> String {
+fn request(built: &Command, ov: &[Option<String>; 5]) -> String {
     let mut t = vec!["man".to_string(), hex(built.get_name().as_bytes()), oh(built.get_display_name().map(|s| s.to_string())), oh(built.get_bin_name().map(|s| s.to_string())),
         oh(built.get_about().map(|s| s.to_string())), oh(built.get_long_about().map(|s| s.to_string())), oh(built.get_version().map(|s| s.to_string())),
         oh(built.get_long_version().map(|s| s.to_string())), oh(built.get_author().map(|s| s.to_string())), oh(built.get_after_help().map(|s| s.to_string())),
@@ -162,10 +163,20 @@ fn request(built: &Command) -> String {
         t.push(oh(s.get_about().or_else(|| s.get_long_about()).map(|x| x.to_string())));
         t.push(b01(s.is_hide_set()).into());
     }
+    for o in ov { t.push(oh(o.clone())); }
     t.join(" ")
 }
 
-fn render(c: Command) -> Vec<u8> { let mut out = vec![]; clap_mangen::Man::new(c).render(&mut out).unwrap(); out }
+fn render(c: Command, ov: &[Option<String>; 5], innocuous: bool) -> Vec<u8> {
+    let t = |s: &str| -> String { if innocuous { s.chars().map(|ch| if matches!(ch, '.' | '\'' | '\\' | '-') { 'x' } else { ch }).collect() } else { s.to_string() } };
+    let mut m = clap_mangen::Man::new(c);
+    if let Some(x) = &ov[0] { m = m.title(t(x)); }
+    if let Some(x) = &ov[1] { m = m.section(t(x)); }
+    if let Some(x) = &ov[2] { m = m.date(t(x)); }
+    if let Some(x) = &ov[3] { m = m.source(t(x)); }
+    if let Some(x) = &ov[4] { m = m.manual(t(x)); }
+    let mut out = vec![]; m.render(&mut out).unwrap(); out
+}
 
 fn requests_of(page: &[u8]) -> Vec<String> {
     String::from_utf8_lossy(page).split('\n').filter(|l| l.starts_with('.') || l.starts_with('\''))
@@ -184,7 +195,7 @@ pub fn run(o: &Opts) -> Report {
         let valid = std::panic::catch_unwind(|| { let mut c = build(&mc, false); c.build(); let mut t = build(&mc, true); t.build(); }).is_ok();
         if !valid { rep.count("invalid_definition(skipped)"); continue; }
         rep.count("commands");
-        let r = std::panic::catch_unwind(|| { let c = build(&mc, false); let mut b = c.clone(); b.build(); (request(&b), render(c.clone()), render(c), render(build(&mc, true))) });
+        let r = std::panic::catch_unwind(|| { let c = build(&mc, false); let mut b = c.clone(); b.build(); (request(&b, &mc.ov), render(c.clone(), &mc.ov, false), render(c, &mc.ov, false), render(build(&mc, true), &mc.ov, true)) });
         let (req, page, page2, twin) = match r {
             Err(_) => { rep.oracle_fail("man-render-panics", &key, "Man::new(cmd).render panicked"); continue; }
             Ok(x) => x,
@@ -215,7 +226,7 @@ pub fn run(o: &Opts) -> Report {
         }
         for s in &mc.subs {
             if s.hide { for t in [Some(s.name.clone()), s.about.clone()].into_iter().flatten() { if text.contains(&t) { rep.oracle_fail("hidden-item-in-man-page", &key, &format!("hidden subcommand token {t:?} appears:\n{text}")); } } }
-            else { let tok = roff_esc(&format!("-{}(1)", s.name)); if !text.contains(&tok) { rep.oracle_fail("visible-item-missing-from-man-page", &key, &format!("{tok:?} not found:\n{text}")); } }
+            else { let tok = roff_esc(&format!("-{}({})", s.name, mc.ov[1].clone().unwrap_or("1".into()))); if !text.contains(&tok) { rep.oracle_fail("visible-item-missing-from-man-page", &key, &format!("{tok:?} not found:\n{text}")); } }
         }
         let nontrivial = format!("{mc:?}").contains("\\n.") || format!("{mc:?}").contains("\\\\") || format!("{mc:?}").contains("\".") || format!("{mc:?}").contains("\"'");
         rep.case(&req, nontrivial);
